@@ -97,3 +97,41 @@ pub fn cchk_always(c: char) -> bool {
 pub fn cchk_never(c: char) -> bool {
     logged("cchk_never", &c, false)
 }
+
+
+// ---------------------------------------------------------------------------------------------
+// the same library for grammars compiled with a user context type (`&mut Ctx` as last argument)
+use crate::Ctx;
+
+pub fn ext_digits_ctx(s: &str, ctx: &mut Ctx) -> Ext<String> {
+    ctx.calls += 1;
+    ext_digits(s)
+}
+pub fn ext_two_ctx<'a>(s: &'a str, ctx: &mut Ctx) -> Ext<&'a str> {
+    ctx.calls += 1;
+    ext_two(s)
+}
+pub fn ext_zero_ctx(s: &str, ctx: &mut Ctx) -> Ext<String> {
+    ctx.calls += 1;
+    ext_zero(s)
+}
+pub fn ext_fail_ctx(s: &str, ctx: &mut Ctx) -> Ext<String> {
+    ctx.calls += 1;
+    ext_fail(s)
+}
+pub fn ext_upper_ctx(s: &str, ctx: &mut Ctx) -> Ext<char> {
+    ctx.calls += 1;
+    ext_upper(s)
+}
+pub fn chk_always_ctx<T: Debug>(v: &T, ctx: &mut Ctx) -> bool {
+    ctx.calls += 1;
+    chk_always(v)
+}
+pub fn chk_never_ctx<T: Debug>(v: &T, ctx: &mut Ctx) -> bool {
+    ctx.calls += 1;
+    chk_never(v)
+}
+pub fn chk_str_even_ctx(v: &String, ctx: &mut Ctx) -> bool {
+    ctx.calls += 1;
+    chk_str_even(v)
+}
